@@ -33,6 +33,7 @@ type wrapReq struct {
 	Ks       []string     `json:"ks"`
 	Stride   int          `json:"stride"`
 	Classes  []string     `json:"classes"`
+	Mode     string       `json:"mode"`  // c03: range-check mechanism of the builder (native | commit | plain), default native
 	Paths    []string     `json:"paths"` // noncanon: only these leaves (targets computed from the canonical-set trace)
 }
 
@@ -160,13 +161,20 @@ func c03Run(req wrapReq, resp *drv.Response) error {
 		if c.Kind == "pubswap" {
 			pub[0], pub[1] = pub[1], pub[0]
 		}
-		cfg := &engine.Config{Mode: engine.Native}
+		mode := req.Mode
+		if mode == "" {
+			mode = "native"
+		}
+		cfg := &engine.Config{Mode: modeOf(mode)}
 		err := hc.RunFixed(cfg, l, l, pub)
 		out := hc.Outcome(err)
 		if out != "accept" {
 			out = "reject"
 		}
-		resp.Count(fmt.Sprintf("c03/%s/%s/%v/%v", req.Instance, c.Kind, c.Limbs, c.K), false)
+		resp.Count(fmt.Sprintf("c03/%s/%s/%s/%v/%v", req.Instance, mode, c.Kind, c.Limbs, c.K), false)
+		if mode != "native" {
+			desc += " [range-check mechanism: " + mode + "]"
+		}
 		if out != want {
 			over := ""
 			for j := range pub {
